@@ -425,3 +425,205 @@ Proof.
   - exact (idealised_guess_xx gstat a female hap t H).
   - exact (idealised_do_sex gstat a female hap t H).
 Qed.
+
+(* ================================================================================================ *)
+(* the noise-free sample with a PAR build: what counts as autosomal / chrX / chrY is what the code's filters
+   select (autosomes and PAR1X / PAR2X; chrX outside them; chrY outside PAR1Y / PAR2Y) *)
+
+Section IdealisedBuild.
+  Variable gstat : mtable -> Q.       (* any G statistic whatsoever *)
+  Variables (a : Q) (female hap : bool) (build : option parb) (t : list bin).
+  Hypothesis Hid : idealised_build a female hap build t.
+
+  Let chrx := filter (chr_x_filter t build) t.
+  Let chry := filter (chr_y_filter t build) t.
+  Let auto := autosomes t build.
+
+  Lemma idb_auto_eq : auto = filter (auto_sel t build) t.
+  Proof. unfold auto. rewrite (autosomes_some t build (idb_auto_exists _ _ _ _ _ Hid)). reflexivity. Qed.
+
+  Lemma idb_auto_in b : In b auto -> In b t /\ auto_sel t build b = true.
+  Proof. rewrite idb_auto_eq. intros H. apply filter_In in H. exact H. Qed.
+
+  Lemma idb_auto_nonnil : auto <> [].
+  Proof.
+    destruct (idb_auto_exists _ _ _ _ _ Hid) as [b [Hb K]]. rewrite idb_auto_eq.
+    apply (filter_nonnil _ t b Hb). unfold auto_sel, is_auto_bin. rewrite K. reflexivity.
+  Qed.
+
+  Lemma idb_chrx_in b : In b chrx -> In b t /\ chr_x_filter t build b = true.
+  Proof. unfold chrx. intros H. apply filter_In in H. exact H. Qed.
+
+  Lemma idb_chrx_nonnil : chrx <> [].
+  Proof. destruct (idb_x_exists _ _ _ _ _ Hid) as [b [Hb K]]. unfold chrx. exact (filter_nonnil _ t b Hb K). Qed.
+
+  Lemma idb_chry_in b : In b chry -> In b t /\ chr_y_filter t build b = true.
+  Proof. unfold chry. intros H. apply filter_In in H. exact H. Qed.
+
+  Lemma idb_auto_const : const_list a (map b_log2 auto).
+  Proof.
+    apply const_map_log2. intros b Hb. destruct (idb_auto_in b Hb) as [H1 H2]. apply (idb_auto _ _ _ _ _ Hid b H1 H2).
+  Qed.
+
+  Lemma idb_chrx_const : const_list (a + x_offset female hap) (map b_log2 chrx).
+  Proof.
+    apply const_map_log2. intros b Hb. destruct (idb_chrx_in b Hb) as [H1 H2]. apply (idb_x _ _ _ _ _ Hid b H1 H2).
+  Qed.
+
+  Lemma idb_ok_auto use : ok_weights (map b_log2 auto) (opt_weights use auto).
+  Proof. apply (opt_weights_ok use auto t); [intros b Hb; apply (idb_auto_in b Hb)|exact (idb_w _ _ _ _ _ Hid)]. Qed.
+  Lemma idb_ok_chrx use : ok_weights (map b_log2 chrx) (opt_weights use chrx).
+  Proof. apply (opt_weights_ok use chrx t); [intros b Hb; apply (idb_chrx_in b Hb)|exact (idb_w _ _ _ _ _ Hid)]. Qed.
+  Lemma idb_ok_chry use : ok_weights (map b_log2 chry) (opt_weights use chry).
+  Proof. apply (opt_weights_ok use chry t); [intros b Hb; apply (idb_chry_in b Hb)|exact (idb_w _ _ _ _ _ Hid)]. Qed.
+
+  Lemma idb_x_lr_male : female = false -> x_lr_of gstat hap build t == 1 / lr_denominator_floor.
+  Proof.
+    intros Hf. unfold x_lr_of. fold chrx. fold auto.
+    rewrite (male_lr_male gstat a (a + x_offset female hap) _ _ _ _ _ _
+               (map_nonnil _ _ idb_auto_nonnil) (map_nonnil _ _ idb_chrx_nonnil) idb_auto_const idb_chrx_const
+               (idb_ok_auto _) (idb_ok_chrx _)).
+    - subst female. unfold x_offset. destruct hap; cbn [andb negb x_shifts fst snd].
+      + setoid_replace (a - (a + 0 + x_shift_female_hapref)) with (1 # 1) by (unfold x_shift_female_hapref; ring).
+        reflexivity.
+      + setoid_replace (a - (a + -1 + x_shift_female_dipref)) with (1 # 1) by (unfold x_shift_female_dipref; ring).
+        reflexivity.
+    - subst female. unfold x_offset. destruct hap; cbn [andb negb x_shifts fst snd].
+      + unfold x_shift_male_hapref. ring.
+      + unfold x_shift_male_dipref. ring.
+  Qed.
+
+  Lemma idb_x_lr_female : female = true -> x_lr_of gstat hap build t == 0.
+  Proof.
+    intros Hf. unfold x_lr_of. fold chrx. fold auto.
+    apply (male_lr_female gstat a (a + x_offset female hap) _ _ _ _ _ _
+               (map_nonnil _ _ idb_auto_nonnil) (map_nonnil _ _ idb_chrx_nonnil) idb_auto_const idb_chrx_const
+               (idb_ok_auto _) (idb_ok_chrx _)).
+    subst female. unfold x_offset. destruct hap; cbn [andb negb x_shifts fst snd].
+    - unfold x_shift_female_hapref. ring.
+    - unfold x_shift_female_dipref. ring.
+  Qed.
+
+  Lemma idb_y_lr_male : female = false ->
+    match y_lr_of gstat build t with Some v => v == 3 / lr_denominator_floor | None => True end.
+  Proof.
+    intros Hf. unfold y_lr_of. fold chry. fold auto.
+    destruct chry as [|by0 ry] eqn:E; [exact I|]. rewrite <- E.
+    assert (Hn : chry <> []) by (rewrite E; discriminate).
+    assert (Hc : const_list a (map b_log2 chry)).
+    { apply const_map_log2. intros b Hb. destruct (idb_chry_in b Hb) as [H1 H2]. apply (idb_y _ _ _ _ _ Hid Hf b H1 H2). }
+    rewrite (male_lr_male gstat a a _ _ _ _ _ _
+               (map_nonnil _ _ idb_auto_nonnil) (map_nonnil _ _ Hn) idb_auto_const Hc (idb_ok_auto _) (idb_ok_chry _)).
+    - setoid_replace (a - (a + y_shift_female)) with (- (3 # 1)) by (unfold y_shift_female; ring). reflexivity.
+    - unfold y_shift_male. ring.
+  Qed.
+
+  Theorem idealised_build_decision : sex_decision gstat hap build t = Some (negb female).
+  Proof.
+    rewrite sex_decision_unfold by exact idb_chrx_nonnil. f_equal.
+    assert (Hcase : female = true \/ female = false) by (destruct female; auto).
+    destruct Hcase as [Ef|Ef]; rewrite Ef; cbn [negb].
+    - apply is_xy_of_false. pose proof (idb_x_lr_female Ef) as Hx.
+      destruct (y_lr_of gstat build t) as [v|]; cbn [score_of].
+      + rewrite qmul_spec, Hx. lra.
+      + rewrite Hx. lra.
+    - apply decision_male.
+      + rewrite (idb_x_lr_male Ef). apply Qlt_shift_div_l; [apply floor_pos|]. pose proof floor_lt_one. lra.
+      + pose proof (idb_y_lr_male Ef) as Hy. destruct (y_lr_of gstat build t) as [v|]; [|exact I].
+        rewrite Hy. apply Qlt_shift_div_l; [apply floor_pos|]. pose proof floor_lt_one. lra.
+  Qed.
+
+  Theorem idealised_build_guess_xx : guess_xx gstat hap build t = Some female.
+  Proof. unfold guess_xx. rewrite idealised_build_decision. rewrite negb_involutive. reflexivity. Qed.
+
+  Theorem idealised_build_do_sex :
+    fst (do_sex_row gstat hap build t) = if female then "Female"%string else "Male"%string.
+  Proof.
+    pose proof idealised_build_decision as H. unfold sex_decision in H. unfold do_sex_row.
+    destruct (compare_sex gstat hap build t) as [[is_xy st]|]; [|discriminate].
+    injection H as H. rewrite H. generalize female. intros f. destruct f; reflexivity.
+  Qed.
+End IdealisedBuild.
+
+Lemma idealised_build_all (gstat : mtable -> Q) a female hap build t :
+  idealised_build a female hap build t ->
+  sex_decision gstat hap build t = Some (negb female) /\
+  guess_xx gstat hap build t = Some female /\
+  fst (do_sex_row gstat hap build t) = (if female then "Female" else "Male")%string.
+Proof.
+  intros H. split; [|split].
+  - exact (idealised_build_decision gstat a female hap build t H).
+  - exact (idealised_build_guess_xx gstat a female hap build t H).
+  - exact (idealised_build_do_sex gstat a female hap build t H).
+Qed.
+
+(* without a build the two notions of a noise-free sample coincide *)
+Lemma idealised_is_build a female hap t : idealised a female hap t -> idealised_build a female hap None t.
+Proof.
+  intros H. constructor.
+  - exact (id_auto_exists _ _ _ _ H).
+  - destruct (id_x_exists _ _ _ _ H) as [b [Hb K]]. exists b. split; [exact Hb|].
+    unfold chr_x_filter. rewrite K, String.eqb_refl. reflexivity.
+  - intros b Hb Hs. apply (id_auto _ _ _ _ H b Hb). unfold auto_sel, is_auto_bin in Hs.
+    rewrite orb_false_r in Hs. exact Hs.
+  - intros b Hb Hs. apply (id_x _ _ _ _ H b Hb). unfold chr_x_filter in Hs. rewrite andb_true_r in Hs.
+    now apply String.eqb_eq.
+  - intros Hf b Hb Hs. apply (id_y _ _ _ _ H Hf b Hb). unfold chr_y_filter in Hs. rewrite andb_true_r in Hs.
+    now apply String.eqb_eq.
+  - exact (id_w _ _ _ _ H).
+Qed.
+
+(* ================================================================================================ *)
+(* the `sex` report: one row per input table, in the order given *)
+
+Lemma do_sex_table_length gstat hap build inputs : length (do_sex_table gstat hap build inputs) = length inputs.
+Proof. unfold do_sex_table. apply map_length. Qed.
+
+Theorem do_sex_table_row gstat hap build inputs i name t :
+  nth_error inputs i = Some (name, t) ->
+  exists label ratios,
+    nth_error (do_sex_table gstat hap build inputs) i = Some (name, (label, ratios)) /\
+    (* the sex column: "Male" exactly when compare_sex_chromosomes says is_xy; no decision (empty table, no chrX)
+       prints "Female" *)
+    label = (match sex_decision gstat hap build t with Some true => "Male" | _ => "Female" end)%string /\
+    (* the two ratio columns: "NA" exactly when there is no decision; otherwise the weighted (if weights) mean of chrX
+       minus that of the autosomes, and the same for chrY -- NaN (inner None) when chrY has no bin *)
+    match compare_sex gstat hap build t with
+    | None => ratios = None
+    | Some (_, st) =>
+        ratios = Some (s_x_ratio st, s_y_ratio st) /\
+        let use := has_weight t in
+        let mean l := match segment_mean use l with Some m => m | None => 0 end in
+        s_x_ratio st = qsub (mean (filter (chr_x_filter t build) t)) (mean (autosomes t build)) /\
+        s_y_ratio st = match filter (chr_y_filter t build) t with
+                       | [] => None
+                       | chry => Some (qsub (mean chry) (mean (autosomes t build)))
+                       end
+    end.
+Proof.
+  intros Hn. unfold do_sex_table. rewrite nth_error_map, Hn. cbn [option_map fst snd].
+  unfold do_sex_row, sex_decision.
+  destruct (compare_sex gstat hap build t) as [[is_xy st]|] eqn:E.
+  - eexists _, _. split; [reflexivity|]. split; [destruct is_xy; reflexivity|]. split; [reflexivity|].
+    unfold compare_sex in E.
+    remember (filter (chr_x_filter t build) t) as chrx eqn:Hx.
+    remember (filter (chr_y_filter t build) t) as chry eqn:Hy.
+    remember (autosomes t build) as auto eqn:Ha.
+    remember (has_weight t) as use eqn:Hu.
+    clear Hx Hy Ha Hu Hn.
+    destruct t as [|b0 t0]; [discriminate|].
+    destruct chrx as [|bx rx]; [discriminate|].
+    destruct (x_shifts hap) as [fx mx]. injection E as _ <-. cbn [s_x_ratio s_y_ratio]. cbv zeta.
+    split; [reflexivity|].
+    destruct chry as [|by0 ry]; [reflexivity|].
+    unfold segment_mean at 1 3. cbv zeta.
+    destruct (use && existsb (fun x => negb (qeq_b x 0)) (weights_of (by0 :: ry))); reflexivity.
+  - eexists _, _. split; [reflexivity|]. split; reflexivity.
+Qed.
+
+(* the sign prefix of the printed ratios: "+" exactly for a positive number *)
+Lemma strsign_plus_spec q : strsign_plus q = true <-> 0 < q.
+Proof. unfold strsign_plus. apply qlt_b_iff. Qed.
+
+Lemma do_sex_header_lit : do_sex_header = ["sample"; "sex"; "X_logratio"; "Y_logratio"]%string.
+Proof. reflexivity. Qed.
